@@ -1046,8 +1046,8 @@ DEAD_BRANCHES = {
     "generate_condition_ex|then|(((operator==Operation::Neq)&&(v!=0))||((operator=": "inside the dead branch above",
     "generate_condition_ex|arm|ExprType::Tmp(s)": "under `flags_ok(&self.flags, left)`, which is never true for a cctmp operand",
     "generate_condition_ex|arm|_": "under `flags_ok(..)`: the remaining operand kinds were all matched by the arms before",
-    "generate_condition|arm|_": "the operator was tested to be one of the six comparisons just above",
-    "generate_condition|then|letExprType::Tmp(_)=expr": "under `flags_ok(&self.flags, &expr)`, which is never true for a cctmp operand",
+    "generate_simple_condition|arm|_": "the operator was tested to be one of the six comparisons just above",
+    "generate_simple_condition|then|letExprType::Tmp(_)=expr": "under `flags_ok(&self.flags, &expr)`, which is never true for a cctmp operand",
 }
 
 
